@@ -102,3 +102,24 @@ CONTRACTS[P + "tuple_to_string"] = dict(
     notes="domain: the accidental counts the substitution rules can produce from prefixes -3..+3 at depth <= 2 stay "
           "within -12..6; beyond +6 the folding of the pinned code is itself wrong (outside the property's quantifier)",
     properties=["C08"], battery="numeral_tuples")
+
+# numeral parsing: the longest prefix of accidentals and numeral letters is consumed; the accidentals count signed, the
+# letters are kept upper-cased and in order, and the rest of the text is the chord suffix
+_SET = "'#bIiVv'"
+_P = "(len(progression) - len(result[2]))"
+CONTRACTS[P + "parse_string"] = dict(
+    params={"progression": "str"}, returns="(str,int,str)", modifies=[],
+    ensures=[("suffix-is-the-rest-of-the-text", "result[2] == progression[%s:]" % _P),
+             ("prefix-is-accidentals-and-numeral-letters", "all([progression[j] in %s for j in range(%s)])" % (_SET, _P)),
+             ("prefix-is-maximal", "%s == len(progression) or progression[%s] not in %s" % (_P, _P, _SET)),
+             ("accidentals-counted-signed", "result[1] == cnt_sharp(progression, 0, %s) - cnt_flat(progression, 0, %s)" % (_P, _P)),
+             ("one-numeral-letter-per-non-accidental", "len(result[0]) == %s - cnt_sharp(progression, 0, %s) - cnt_flat(progression, 0, %s)"
+              % (_P, _P, _P)),
+             ("numeral-in-capitals", "all([result[0][j] in 'IV' for j in range(len(result[0]))])")],
+    loops={1: dict(index="k",
+                   inv=[("position", "i == k"),
+                        ("consumed-are-in-the-set", "all([progression[j] in %s for j in range(k)])" % _SET),
+                        ("accidentals", "acc == cnt_sharp(progression, 0, k) - cnt_flat(progression, 0, k)"),
+                        ("letters", "len(roman_numeral) == k - cnt_sharp(progression, 0, k) - cnt_flat(progression, 0, k)"),
+                        ("capitals", "all([roman_numeral[j] in 'IV' for j in range(len(roman_numeral))])")])},
+    properties=["C08"], battery="numeral_strings")
